@@ -987,12 +987,23 @@ class TorControlProtocol(LineOnlyReceiver):
             return True
         return False
 
+    def _line_callback(self):
+        """
+        The per-line callback of the in-flight command, unless the
+        reply being received is an asynchronous (600-level) event.
+        """
+        if self.code is not None and self.code >= 600:
+            return None
+        if self.command:
+            return self.command[2]
+        return None
+
     def _start_command(self, line):
         "for FSM"
         # print "startCommand",self.code,line
         self.code = int(line[:3])
         # print "startCommand:",self.code
-        if self.command and self.command[2] is not None:
+        if self._line_callback() is not None:
             self.command[2](line[4:])
         else:
             self.response = line[4:] + '\n'
@@ -1019,7 +1030,7 @@ class TorControlProtocol(LineOnlyReceiver):
         if line.startswith('.'):
             # Tor prepends a period to data lines starting with one
             line = line[1:]
-        if self.command and self.command[2] is not None:
+        if self._line_callback() is not None:
             self.command[2](line)
 
         else:
@@ -1028,7 +1039,7 @@ class TorControlProtocol(LineOnlyReceiver):
 
     def _accumulate_response(self, line):
         "for FSM"
-        if self.command and self.command[2] is not None:
+        if self._line_callback() is not None:
             self.command[2](line[4:])
 
         else:
